@@ -97,6 +97,56 @@ def scan(b, pos=0, depth=0, max_depth=64, limit=None):
     return n
 
 
+def headers_tolerant(b, limit_nodes=5000):
+    """Document-order list of (start, hdr_end, end_or_None, constructed, definite,
+    open_definite_ancestors) for as much of b as can be framed; never raises.  Used on
+    damaged or truncated input, where scan() gives up."""
+    out = []
+    stack = []      # (end or None for indefinite, definite?)
+    pos = 0
+    n = len(b)
+    while pos < n and len(out) < limit_nodes:
+        # close finished definite frames / indefinite frames at EOO
+        while stack and stack[-1][0] is not None and pos >= stack[-1][0]:
+            stack.pop()
+        if stack and stack[-1][0] is None and b[pos:pos + 2] == b'\x00\x00':
+            stack.pop()
+            pos += 2
+            continue
+        start = pos
+        first = b[pos]
+        pos += 1
+        if first & 0x1f == 0x1f:
+            while pos < n and b[pos] & 0x80:
+                pos += 1
+            pos += 1
+        if pos >= n:
+            break
+        lo = b[pos]
+        pos += 1
+        if lo < 0x80:
+            length = lo
+        elif lo == 0x80:
+            length = -1
+        else:
+            k = lo & 0x7f
+            if pos + k > n:
+                break
+            length = int.from_bytes(b[pos:pos + k], 'big')
+            pos += k
+        constructed = bool(first & 0x20)
+        open_def = sum(1 for e, d in stack if d)
+        end = None if length == -1 else pos + length
+        out.append((start, pos, end, constructed, length != -1, open_def))
+        if constructed:
+            stack.append((end, length != -1))
+        else:
+            if length == -1:
+                break
+            pos = end
+    return out
+
+
 def well_framed(b):
     """True iff b is exactly one well-framed TLV."""
     try:
